@@ -1,13 +1,198 @@
-"""C53 -- Rotating log files lose and reorder nothing: bounded stand-in (contracts/parts/C53_bounded.py)."""
-from contracts._parts import bounded, EXPLORATION_NOTE
+"""C53 -- Rotating log files lose and reorder nothing.
 
-CONTRACTS = []
+Deductive: LogFile.rotate() over a ghost directory with *any number* of rotated files.  The directory is an SMT array
+from the numeric suffix k of `path.k` (0: the live file) to a content identifier (0: no such file); listLogs() is used
+through its contract (the suffixes present, ascending).  Proved with an inductive invariant over the descending loop:
+  * no os.rename ever has an existing file as its target (so no chunk is overwritten) and every source exists;
+  * afterwards the whole directory is the old one shifted by one: path.1 holds what the live file held, path.(k+1) holds
+    what path.k held for every k -- except that, with a retention count, exactly the files with k >= maxRotatedFiles are
+    removed -- and a new live file has been opened; nothing else is created, removed or moved;
+  * when the directory or the file is not writable nothing changes at all.
+Bounded (contracts/parts/C53_bounded.py): the real class on a scratch directory, histories, crashes inside rotate().
+"""
+import z3
+
+from pyvc.api import *
+from pyvc import core
+from contracts._parts import bounded
+from twisted.python import logfile
+
+INT = z3.IntSort()
+K = z3.Int("c53_k")
+J = z3.Int("c53_j")
+PATH = "/ghost/dir/app.log"
+
+
+def arr(name):
+    return z3.Array(name, INT, INT)
+
+
+def index_of(p):
+    """numeric suffix of a path of the log family (0 for the live file)"""
+    if not is_sym(p):
+        if p == PATH:
+            return z3.IntVal(0)
+        if isinstance(p, str) and p.startswith(PATH + ".") and p[len(PATH) + 1:].isdigit():
+            return z3.IntVal(int(p[len(PATH) + 1:]))
+        raise Unsupported("file operation on a path outside the log family: %r" % (p,))
+    t = core.seq_term(p, "str")
+    found = []
+
+    def walk(e):
+        if z3.is_app(e):
+            if e.decl().name() == "decenc" and e.num_args() == 1:
+                found.append(e.arg(0))
+            for k in range(e.num_args()):
+                walk(e.arg(k))
+    walk(t)
+    if len(found) != 1:
+        raise Unsupported("cannot read the numeric suffix off a symbolic path")
+    # the path must be exactly `<path>.<decimal suffix>`
+    from pyvc import models
+    want = z3.Concat(core.seq_term(PATH + ".", "str"), models.decenc()(found[0]))
+    if not ctx().ghost["$interp"].truth(core.mk_bool(t == want)):
+        raise Unsupported("file operation on a path outside the log family")
+    return found[0]
+
+
+def fs_rename(I, a, b):
+    c = ctx()
+    g = c.ghost
+    ia, ib = index_of(a), index_of(b)
+    F = g["F"]
+    name = g["$contract"].name
+    c.oblige("%s/callout/rename-source-exists" % name, core.mk_bool(F[ia] != 0), "callout")
+    c.oblige("%s/callout/rename-never-overwrites-a-file" % name, core.mk_bool(F[ib] == 0), "callout")
+    g["F"] = z3.Store(z3.Store(F, ib, F[ia]), ia, 0)
+    c.emit("rename", None, (ia, ib))
+
+
+def fs_remove(I, a):
+    c = ctx()
+    g = c.ghost
+    ia = index_of(a)
+    c.oblige("%s/callout/remove-target-exists" % g["$contract"].name, core.mk_bool(g["F"][ia] != 0), "callout")
+    g["F"] = z3.Store(g["F"], ia, 0)
+    c.emit("remove", None, (ia,))
+
+
+def list_logs(I, *a):
+    """listLogs() by its contract: the positive suffixes present in the directory, ascending.  The loop walks the list
+    reversed; the facts are stated on that reversed (descending) view, which reverse() then installs."""
+    c = ctx()
+    g = c.ghost
+    F0 = g["F0"]
+    asc = core.fresh_list(c.fresh_name("logs"), "int")
+    rev = z3.Const(c.fresh_name("logs_descending"), asc.seq.sort())
+    n = z3.Length(rev)
+    c.assume(z3.Length(asc.seq) == n)
+    c.assume(z3.ForAll([J], z3.Implies(z3.And(J >= 0, J < n), z3.And(rev[J] >= 1, F0[rev[J]] != 0, asc.seq[J] == rev[n - 1 - J]))))
+    c.assume(z3.ForAll([J], z3.Implies(z3.And(J >= 0, J < n - 1), rev[J] > rev[J + 1])))
+    # completeness: no file with a positive suffix other than the listed ones
+    c.assume(z3.ForAll([J, K], z3.Implies(z3.And(J >= 0, J < n - 1, K > rev[J + 1], K < rev[J]), F0[K] == 0)))
+    c.assume(z3.ForAll([K], z3.Implies(z3.And(n > 0, K > rev[0]), F0[K] == 0)))
+    c.assume(z3.ForAll([K], z3.Implies(z3.And(n > 0, K >= 1, K < rev[n - 1]), F0[K] == 0)))
+    c.assume(z3.ForAll([K], z3.Implies(z3.And(n == 0, K >= 1), F0[K] == 0)))
+    g.setdefault("reversed_views", {})[asc.seq.get_id()] = rev
+    c.emit("listLogs", None, ())
+    return asc
+
+
+def open_file(I, *a):
+    c = ctx()
+    g = c.ghost
+    new = z3.Int(c.fresh_name("new_live_file"))
+    c.assume(new != 0)
+    c.oblige("%s/callout/live-file-was-moved-away-before-reopening" % g["$contract"].name, core.mk_bool(g["F"][0] == 0), "callout")
+    g["F"] = z3.Store(g["F"], 0, new)
+    g["new"] = new
+    c.emit("openFile", None, ())
+
+
+def keep(mx, j):
+    return z3.BoolVal(True) if mx is None else j < core.num_term(mx)
+
+
+def shifted(F0, mx, k):
+    """content expected at suffix k >= 1 after a rotation"""
+    return z3.If(k == 1, F0[0], z3.If(keep(mx, k - 1), F0[k - 1], 0))
+
+
+def loop_inv(v):
+    rev = v.logs.seq
+    i = core.num_term(v._i)
+    mx = v.self.maxRotatedFiles
+    F, F0 = v.F, v.F0
+    t = rev[i - 1]  # the smallest suffix handled so far
+    done = z3.And(i > 0, K >= t)
+    expected = z3.If(done, z3.If(K == t, 0, z3.If(keep(mx, K - 1), F0[K - 1], 0)), F0[K])
+    return core.mk_bool(z3.ForAll([K], z3.Implies(K >= 0, F[K] == expected)))
+
+
+class Rotate(Contract):
+    prop = "C53"
+    module = "twisted.python.logfile"
+    function = "LogFile.rotate"
+    differential = False
+    calls = {"posix.rename": fs_rename, "posix.remove": fs_remove, "posix.access": lambda I, *a: ctx().decide(z3.Bool(ctx().fresh_name("writable"))),
+             "file.close": lambda I, *a: None}
+    summaries = {"LogFile.listLogs": list_logs, "LogFile._openFile": open_file}
+    inputs = dict(retention=ForkBool(), max=Int(0, None))
+    loops = {"LogFile.rotate#0": LoopSpec(inv=loop_inv, ghost=("F",), types={"F": arr})}
+    trusted = ["the directory is an array from numeric suffix to content (POSIX: rename replaces its target silently, which is "
+               "why 'the target does not exist' is an obligation at every rename)",
+               "listLogs() returns exactly the positive suffixes present, ascending (glob + int parsing: bounded tier; two "
+               "escaping defects in it were repaired, see known_findings.json)",
+               "os.access answers arbitrarily; _openFile opens a new live file (recorded; it must find the old one moved away)"]
+    timeout_quick = 60
+    timeout_thorough = 120
+
+    def setup(self, i):
+        real = logfile.LogFile.__new__(logfile.LogFile)
+        lf = self.make(logfile.LogFile, name="app.log", directory="/ghost/dir", path=PATH, defaultMode=None, rotateLength=100,
+                       maxRotatedFiles=i.max if i.retention else None, _file=self.opaque("file"), size=100, closed=False)
+        F0 = arr("c53_dir")
+        ctx().assume(F0[0] != 0)  # the live file exists
+        return dict(self=lf, args=[], objs=dict(lf=lf), ghost=dict(F=F0, F0=F0, new=None))
+
+    def bounded_inputs(self, tier):
+        return iter(())
+
+    raises = ()
+
+    def _shift(S):
+        F, F0 = S.ghost["F"], S.ghost["F0"]
+        if not ev(S, "listLogs"):
+            # not writable: nothing was touched
+            return band(len(S.trace) == 0, core.mk_bool(z3.ForAll([K], F[K] == F0[K])))
+        mx = S.new.lf.maxRotatedFiles
+        return band(len(ev(S, "openFile")) == 1, S.trace[-1].name == "openFile",
+                    core.mk_bool(z3.And(F[0] == S.ghost["new"], z3.ForAll([K], z3.Implies(K >= 1, F[K] == shifted(F0, mx, K))))))
+
+    ensures = dict(whole_directory_shifted_by_one_and_nothing_else_changed=_shift)
+    canaries = [("os.rename(\"%s.%d\" % (self.path, i), \"%s.%d\" % (self.path, i + 1))", "os.rename(\"%s.%d\" % (self.path, i), \"%s.%d\" % (self.path, i + 2))", "!verify"),
+                ("        logs.reverse()\n", "", "!verify"),
+                ("if self.maxRotatedFiles is not None and i >= self.maxRotatedFiles:", "if self.maxRotatedFiles is not None and i > self.maxRotatedFiles:", "!verify")]
+
+
+def ev(S, name):
+    return [e for e in S.trace if e.name == name]
+
+
+CONTRACTS = [Rotate]
 BOUNDED = bounded("C53")
 _SCOPE = ('real LogFile on a scratch directory: every history of up to 4 operations (byte and multi-byte text writes, reopen, restart) x rotateLength {1,2,3,6} x maxRotatedFiles {None,1,2}, longer histories over smaller alphabets, two-digit rotation counts, a crash before and after every rename / remove inside rotate(), path spellings with dots, digits and glob metacharacters, retention count 0; oracle: a write ledger (retained files oldest first + current = suffix of everything written, nothing lost / duplicated / reordered, rotated files >= rotateLength, exactly the newest N kept)')
-NOTES = dict(explanation=_SCOPE, not_covered=["deductive contracts on the anchored functions (not built)"])
+NOTES = dict(explanation="rotate() proved over a ghost directory with any number of rotated files; listLogs, writes, reopening and crashes bounded: " + _SCOPE,
+             not_covered=["listLogs (glob, int parsing), write / shouldRotate / reopen, DailyLogFile, a crash in the middle of rotate(): bounded tier only"])
 MANIFEST = dict(
-    category="exploration",
-    text="Bounded stand-in only, on the real code: " + _SCOPE + ".",
-    note=EXPLORATION_NOTE,
-    technique="bounded exhaustive evaluation of an executable contract on the real code (stand-in; not proved)",
+    category="proof",
+    text="LogFile.rotate() is proved over a ghost directory (an SMT array from the numeric suffix to a content identifier) "
+         "holding any number of rotated files, with listLogs() used through its contract: no rename ever targets an existing "
+         "file and every source exists (obligations at each call), and afterwards the whole directory is the old one shifted "
+         "by one -- path.1 holds the old live file, path.(k+1) what path.k held, exactly the files with suffix >= "
+         "maxRotatedFiles removed when a retention count is set, a new live file opened, nothing else touched; if the "
+         "directory or the file is not writable, nothing changes.  Inductive invariant over the descending loop.  listLogs, "
+         "writes, reopening and crash points are exercised in the bounded tier only: " + _SCOPE + ".",
+    note="Trusted: pyvc, SMT solvers, the directory-as-array model, listLogs' contract.  Everything else: bounded, never counted as proved.",
+    technique="contract-based deductive verification (inductive loop invariant over an SMT-array model of the directory, call-out obligations) + bounded exhaustive histories on a scratch directory",
 )
